@@ -123,6 +123,8 @@ def gen_cubes(tier, seed):
                     xs[rng.randrange(T)] = float(nd)
                 pixels.append(xs)
             cubes.append((pixels, nd, 0, T, "accessor", dtype, f"{dtype}-outliers"))
+    # the far-tail ladders of C07 (with and without a share of zeros): ordering must hold step by step around 6 sigma too
+    cubes += [c for c in c07.gen_cubes(tier, seed + 1000) if len(c) > 6 and str(c[6]).startswith("tails")]
     return cubes
 
 
